@@ -40,6 +40,10 @@ type priorityWriteSchedulerRFC9218 struct {
 	// call.
 	prioritizeIncremental bool
 
+	// servedIncrementalLast records, per urgency, whether the last stream
+	// frame popped at that urgency came from an incremental stream.
+	servedIncrementalLast [8]bool
+
 	// priorityUpdateBuf is used to buffer the most recent PRIORITY_UPDATE we
 	// receive per https://www.rfc-editor.org/rfc/rfc9218.html#name-the-priority_update-frame.
 	priorityUpdateBuf struct {
@@ -180,14 +184,13 @@ func (ws *priorityWriteSchedulerRFC9218) Pop() (FrameWriteRequest, bool) {
 	// priority, we give 50% of our bandwidth to the incremental ones in
 	// aggregate and 50% to the first non-incremental one (since
 	// non-incremental streams do not use round-robin writes).
-	ws.prioritizeIncremental = !ws.prioritizeIncremental
 
 	// Always prioritize lowest u (i.e. highest urgency level).
 	for u := range ws.heads {
 		for i := range ws.heads[u] {
 			// When we want to prioritize incremental, we try to pop i=true
 			// first before i=false when u is the same.
-			if ws.prioritizeIncremental {
+			if !ws.servedIncrementalLast[u] {
 				i = (i + 1) % 2
 			}
 			q := ws.heads[u][i]
@@ -196,6 +199,7 @@ func (ws *priorityWriteSchedulerRFC9218) Pop() (FrameWriteRequest, bool) {
 			}
 			for {
 				if wr, ok := q.consume(math.MaxInt32); ok {
+					ws.servedIncrementalLast[u] = i == 1
 					if i == 1 {
 						// For incremental streams, we update head to q.next so
 						// we can round-robin between multiple streams that can
